@@ -19,13 +19,13 @@ How the model's program counters read these skeletons:
 namespace Ekit.BQSkel
 
 def expected_ConcurrentArrayBlockingQueue_AsSlice : String :=
-  "RLock(mutex);defer{RUnlock(mutex)};R(count);R(data);for(cnt < recv.count){R(count);R(head);R(data)};return"
+  "RLock(mutex);defer{RUnlock(mutex)};R(count);R(data);for($1 < recv.count){R(count);R(head);R(data);continue};return"
 
 def expected_ConcurrentArrayBlockingQueue_Dequeue : String :=
-  "SemAcquire(dequeueCap);if(err != nil){return};Lock(mutex);defer{Unlock(mutex)};ctx.Err;if(ctx.Err() != nil){SemRelease(dequeueCap);ctx.Err;return};R(data);R(head);R(zero);R(head);W(data[]);R(head);W(head);R(count);W(count);R(head);R(data);if(recv.head == cap(recv.data)){W(head)};SemRelease(enqueueCap);return"
+  "SemAcquire(dequeueCap);if($1 == nil){Lock(mutex);defer{Unlock(mutex)};ctx.Err;if(ctx.Err() == nil){R(data);R(head);R(zero);R(head);W(data[]);R(head);W(head);R(count);W(count);R(head);R(data);if(recv.head == cap(recv.data)){W(head)};SemRelease(enqueueCap);return};else{SemRelease(dequeueCap);ctx.Err;return}};else{return}"
 
 def expected_ConcurrentArrayBlockingQueue_Enqueue : String :=
-  "SemAcquire(enqueueCap);if(err != nil){return};Lock(mutex);defer{Unlock(mutex)};ctx.Err;if(ctx.Err() != nil){SemRelease(enqueueCap);ctx.Err;return};R(tail);W(data[]);R(tail);W(tail);R(count);W(count);R(tail);R(data);if(recv.tail == cap(recv.data)){W(tail)};SemRelease(dequeueCap);return"
+  "SemAcquire(enqueueCap);if($1 == nil){Lock(mutex);defer{Unlock(mutex)};ctx.Err;if(ctx.Err() == nil){R(tail);W(data[]);R(tail);W(tail);R(count);W(count);R(tail);R(data);if(recv.tail == cap(recv.data)){W(tail)};SemRelease(dequeueCap);return};else{SemRelease(enqueueCap);ctx.Err;return}};else{return}"
 
 def expected_ConcurrentArrayBlockingQueue_Len : String :=
   "RLock(mutex);defer{RUnlock(mutex)};R(count);return"
@@ -34,22 +34,22 @@ def expected_ConcurrentLinkedBlockingQueue_AsSlice : String :=
   "RLock(mutex);defer{RUnlock(mutex)};Call(linkedlist.AsSlice);return"
 
 def expected_ConcurrentLinkedBlockingQueue_Dequeue : String :=
-  "ctx.Err;if(ctx.Err() != nil){ctx.Err;return};Lock(mutex);for(recv.linkedlist.Len() == 0){Call(linkedlist.Len);Call(notEmpty.signalCh);select{arm[ctx.Done;Recv(ctx.Done())]{ctx.Err;return};arm[Recv(signal)]{Lock(mutex)}}};MapDelete(linkedlist);Call(notFull.broadcast);return"
+  "ctx.Err;if(ctx.Err() == nil){Lock(mutex);for(recv.linkedlist.Len() == 0){Call(linkedlist.Len);Call(notEmpty.signalCh);select{arm[ctx.Done;Recv(ctx.Done())]{ctx.Err;return};arm[Recv($1)]{Lock(mutex)}};continue};MapDelete(linkedlist);Call(notFull.broadcast);return};else{ctx.Err;return}"
 
 def expected_ConcurrentLinkedBlockingQueue_Enqueue : String :=
-  "ctx.Err;if(ctx.Err() != nil){ctx.Err;return};Lock(mutex);for(recv.maxSize > 0 && recv.linkedlist.Len() == recv.maxSize){R(maxSize);Call(linkedlist.Len);R(maxSize);Call(notFull.signalCh);select{arm[ctx.Done;Recv(ctx.Done())]{ctx.Err;return};arm[Recv(signal)]{Lock(mutex)}}};Call(linkedlist.Append);Call(notEmpty.broadcast);return"
+  "ctx.Err;if(ctx.Err() == nil){Lock(mutex);for(recv.maxSize > 0 && recv.linkedlist.Len() == recv.maxSize){R(maxSize);Call(linkedlist.Len);R(maxSize);Call(notFull.signalCh);select{arm[ctx.Done;Recv(ctx.Done())]{ctx.Err;return};arm[Recv($1)]{Lock(mutex)}};continue};Call(linkedlist.Append);Call(notEmpty.broadcast);return};else{ctx.Err;return}"
 
 def expected_ConcurrentLinkedBlockingQueue_Len : String :=
   "RLock(mutex);defer{RUnlock(mutex)};Call(linkedlist.Len);return"
 
 def expected_NewConcurrentArrayBlockingQueue : String :=
-  "SemAcquire(semaForDequeue);return"
+  "SemAcquire($1);return"
 
 def expected_NewConcurrentLinkedBlockingQueue : String :=
   "return"
 
 def expected_cond_broadcast : String :=
-  "R(signal);W(signal);Unlock(l);Close(old)"
+  "R(signal);W(signal);Unlock(l);Close($1);return"
 
 def expected_cond_signalCh : String :=
   "R(signal);Unlock(l);return"
